@@ -98,21 +98,24 @@ type roomStats struct {
 }
 
 type room struct {
-	t         *rapid.T
-	s         *sim
-	cfg       roomCfg
-	groups    map[string]*mGroup
-	gnames    []string
-	where     map[string]string          // client id -> group name ("" = not a member)
-	held      map[string]map[string]bool // client id -> permissions it has ever held
-	chatN     int
-	nextID    int
-	st        roomStats
-	or        string            // oracle family: "C08","C10","C11","C14","C15","C12"
-	tokens    map[string]string // token -> group, tokens created through the harness
-	desc      map[string]any    // the definition both groups were created with
-	flaps     int
-	preTokens []string // tokens made directly in the store at the start of the case (removed at its end)
+	t          *rapid.T
+	s          *sim
+	cfg        roomCfg
+	groups     map[string]*mGroup
+	gnames     []string
+	where      map[string]string          // client id -> group name ("" = not a member)
+	held       map[string]map[string]bool // client id -> permissions it has ever held
+	chatN      int
+	nextID     int
+	st         roomStats
+	or         string            // oracle family: "C08","C10","C11","C14","C15","C12"
+	tokens     map[string]string // token -> group, tokens created through the harness
+	desc       map[string]any    // the definition both groups were created with
+	flaps      int
+	hierarchy  bool
+	joinTokens []mToken // tokens a client may join with (made in the store at the start of the case)
+	tokenJoins int
+	preTokens  []string // tokens made directly in the store at the start of the case (removed at its end)
 }
 
 func (r *room) opf(f string, a ...any) {
@@ -215,6 +218,7 @@ func newRoom(t *rapid.T, or string, nclients int) *room {
 	// the second group is, in a third of the cases, a subgroup of the first (with its own definition): token scopes
 	// and listings then have an ancestor to be confused with
 	hierarchy := rapid.IntRange(0, 2).Draw(t, "hierarchy") == 0
+	r.hierarchy = hierarchy
 	base := fmt.Sprintf("v%d-%d", simCase, time.Now().UnixNano()%100000)
 	for _, sfx := range []string{"a", "b"} {
 		name := base + sfx
@@ -225,6 +229,26 @@ func newRoom(t *rapid.T, or string, nclients int) *room {
 		r.desc = desc
 		r.groups[name] = &mGroup{name: name, members: map[string]*mMember{}, locked: cfg.autolock, data: map[string]any{}}
 		r.gnames = append(r.gnames, name)
+	}
+	{
+		// tokens clients may join with: one carrying a username, one without, each for one group
+		e := time.Now().Add(time.Hour)
+		named := "tokenuser"
+		for _, tk := range []mToken{
+			{name: base + "-join1", group: r.gnames[0], perms: []string{"message", "present"}, user: named},
+			{name: base + "-join2", group: r.gnames[1], perms: []string{"message"}},
+			{name: base + "-join3", group: r.gnames[0], perms: []string{"present", "message", "caption"}, subgroups: hierarchy},
+		} {
+			st := &token.Stateful{Token: tk.name, Group: tk.group, IncludeSubgroups: tk.subgroups, Permissions: append([]string(nil), tk.perms...), Expires: &e}
+			if tk.user != "" {
+				st.Username = &named
+			}
+			if _, err := token.Update(st, ""); err != nil {
+				t.Fatalf("VERIF-HARNESS-ERROR: %v", err)
+			}
+			r.preTokens = append(r.preTokens, tk.name)
+			r.joinTokens = append(r.joinTokens, tk)
+		}
 	}
 	if hierarchy {
 		// tokens that only the API can make: one of the parent that also covers its subgroups, a server-wide one
@@ -385,6 +409,14 @@ func errorTexts(ms []clientMessage) []string {
 	return r
 }
 
+// mToken is a stateful token whose content the model knows.
+type mToken struct {
+	name, group string
+	perms       []string
+	user        string // "" = the token carries no username
+	subgroups   bool
+}
+
 // doJoin performs a join attempt and checks admission against the model (C08/C10).
 func (r *room) doJoin(sc *simClient) {
 	t := r.t
@@ -412,6 +444,27 @@ func (r *room) doJoin(sc *simClient) {
 	badpw := oneIn(t, rare, "badpw")
 	if badpw {
 		pw = rapid.SampledFrom([]string{"", "wrong", "pw-op1x"}).Draw(t, "pw")
+	}
+	// one join in seven presents a token instead of a password
+	var tok *mToken
+	joinMsg := clientMessage{Type: "join", Kind: "join", Group: gname, Username: &uname, Password: pw}
+	if !r.isMember(sc) && len(r.joinTokens) > 0 && rapid.IntRange(0, 6).Draw(t, "withToken") == 0 {
+		tk := r.joinTokens[rapid.IntRange(0, len(r.joinTokens)-1).Draw(t, "whichToken")]
+		if tk.group != gname && rapid.IntRange(0, 3).Draw(t, "tokenOwnGroup") != 0 {
+			// most of the time in a group the token is good for
+			gname = tk.group
+			g = r.groups[gname]
+		}
+		tok = &tk
+		joinMsg = clientMessage{Type: "join", Kind: "join", Group: gname, Token: tk.name}
+		if tk.user == "" {
+			uname = "guest-" + sc.id
+			joinMsg.Username = &uname
+		} else {
+			uname = tk.user
+		}
+		badpw, known = false, true
+		r.tokenJoins++
 	}
 	if r.isMember(sc) {
 		// protocol error: closes the connection
@@ -443,7 +496,13 @@ func (r *room) doJoin(sc *simClient) {
 	// model decision
 	var perms []string
 	credOK := false
-	if known {
+	if tok != nil {
+		covers := tok.group == gname || (tok.subgroups && strings.HasPrefix(gname, tok.group+"/"))
+		if covers {
+			credOK = true
+			perms = append([]string(nil), tok.perms...) // exactly the token's, whatever happened to earlier bearers
+		}
+	} else if known {
 		if !badpw {
 			credOK = true
 			for _, u := range roomUsers {
@@ -480,7 +539,7 @@ func (r *room) doJoin(sc *simClient) {
 	}
 	r.takeAll()
 	sc.gotJoined = nil
-	err := r.s.send(sc, clientMessage{Type: "join", Kind: "join", Group: gname, Username: &uname, Password: pw})
+	err := r.s.send(sc, joinMsg)
 	if err != nil {
 		t.Fatalf("join closed the connection: %v", err)
 	}
@@ -514,6 +573,9 @@ func (r *room) doJoin(sc *simClient) {
 			t.Fatalf("%s: join of %s to %s as %s should be admitted (model), server answered %s %v", r.or, sc.id, gname, uname, last.Kind, last.Value)
 		}
 		if sortedPerms(last.Permissions) != sortedPerms(perms) {
+			if tok != nil {
+				t.Fatalf("C09: %s joined with token %s and was granted %v, the token says %v", sc.id, tok.name, last.Permissions, perms)
+			}
 			t.Fatalf("C08: %s logged in as %s and was granted %v, the configured rights are %v (allow-recording=%v unrestricted-tokens=%v)",
 				sc.id, uname, last.Permissions, perms, r.cfg.allowRecording, r.cfg.unrestrictedTokens)
 		}
@@ -1157,10 +1219,10 @@ func (r *room) doToken(sc *simClient) {
 				t.Fatalf("C11: listtokens by %s (member=%v perms=%v) was answered", sc.id, me != nil, permsOf(me))
 			}
 			r.st.listAnswered++
-			if len(r.preTokens) > 0 {
+			if r.hierarchy {
 				r.st.listHier++
 			}
-			if len(r.preTokens) > 0 && g.name == r.gnames[1] {
+			if r.hierarchy && g.name == r.gnames[1] {
 				r.st.listInSubgroup++
 			}
 			// only tokens of the member's own group
@@ -1496,9 +1558,10 @@ func (r *room) classes(rec *verifkit.Rec) {
 	rec.ClassN("definition_unreadable_for_a_moment_with_members_present", r.flaps)
 	rec.ClassN("token_listings_in_a_subgroup_whose_parent_has_a_hierarchical_token", r.st.listInSubgroup)
 	rec.ClassN("token_listings_answered", r.st.listAnswered)
-	if len(r.preTokens) > 0 {
+	if r.hierarchy {
 		rec.Class("group_layout_parent_and_subgroup")
 	}
+	rec.ClassN("joins_with_a_token", r.tokenJoins)
 	rec.ClassN("token_edits_across_groups", r.st.crossGroupTokenOps)
 	rec.ClassN("joins_with_history_replay", r.st.histJoins)
 	rec.ClassN("joins_with_full_history", r.st.histJoinsOver50)
